@@ -25,6 +25,21 @@ class Expander(object):
             elif isinstance(n, ast.withitem) and n.optional_vars is not None:
                 self._bind(n.optional_vars, n.context_expr)
 
+    def may_reach(self, def_line, use_line):
+        """A definition inside a block that always leaves the function (return/raise at its end)
+        cannot reach a use outside that block."""
+        from .facts import always_exits
+        for n in ast.walk(self.fn):
+            for field in ('body', 'orelse'):
+                blk = getattr(n, field, None)
+                if not isinstance(blk, list) or not blk or not isinstance(n, (ast.If, ast.Try, ast.For, ast.While, ast.With)):
+                    continue
+                lo, hi = blk[0].lineno, getattr(blk[-1], 'end_lineno', blk[-1].lineno)
+                if lo <= def_line <= hi and not (lo <= use_line <= hi):
+                    if always_exits(blk, (ast.Return, ast.Raise)):
+                        return False
+        return True
+
     def _bind(self, t, v):
         if isinstance(t, ast.Name):
             self.defs.setdefault(t.id, []).append(v)
@@ -48,7 +63,8 @@ class Expander(object):
                     # several definitions: the nearest one textually before the use
                     use = getattr(n, 'lineno', None)
                     if use is not None:
-                        before = [v for v in d if getattr(v, 'lineno', 10**9) <= use]
+                        before = [v for v in d if getattr(v, 'lineno', 10**9) <= use
+                                  and ex.may_reach(getattr(v, 'lineno', 0), use)]
                         if before:
                             best = max(before, key=lambda v: v.lineno)
                             return ex.expand(best, depth - 1)
